@@ -289,7 +289,9 @@ def kind_instances(rng, wa, tier):
         pk, ck = py_kind(kind), coq_kind(kind)
         for op in ops:
             if tier == 'quick' and (ki + len(op) + wa) % (3 if wa <= 4 else 6):
-                continue  # quick: a third (a sixth above 4 bits) of the (kind, op) grid per width;
+                continue
+            if tier != 'quick' and wa > 5 and (ki + len(op) + wa) % 2:
+                continue  # thorough: half of the grid per width above the exhaustive range  # quick: a third (a sixth above 4 bits) of the (kind, op) grid per width;
                 # which third rotates with the width, so all of it is visited across widths
             f = BIN_SPECS[op]
             signed_int = op in ('signed_add', 'signed_mult')
@@ -516,7 +518,7 @@ def make_jobs(ctx, only=None):
     big = [6, 7, 8, 9, 15, 16, 17, 31, 32, 33, 63, 64, 65, 100, 127, 128, 129, 130]
     amt = [1, 2, 3, 4, 5, 6, 7, 8, 9, 10]
     rng = ctx.sub_rng('bigpairs')
-    npairs, nval, nun = (10, 3, 2) if tier == 'quick' else (90, 8, 24)
+    npairs, nval, nun = (10, 3, 2) if tier == 'quick' else (40, 6, 10)
     pairs = [(130, 130), (130, 8), (1, 130), (64, 65), (33, 7), (128, 9)]
     while len(pairs) < npairs:
         c = rng.random()
@@ -536,7 +538,7 @@ def make_jobs(ctx, only=None):
         # amounts around the data width (saturation boundary)
         B += [v for v in (wa - 1, wa, wa + 1, wa // 2) if 0 <= v < (1 << wb) and v not in B]
         pts = [(x, y) for x in A for y in B]
-        cap = (16 if max(wa, wb) > 100 else 28) if tier == 'quick' else 120
+        cap = (16 if max(wa, wb) > 100 else 28) if tier == 'quick' else (40 if max(wa, wb) > 100 else 70)
         if len(pts) > cap:
             keep = [(x, y) for x in A[:3] for y in B[:3]] + [(A[i % len(A)], y) for i, y in enumerate(B)]
             rest = [p for p in pts if p not in keep]
@@ -547,7 +549,8 @@ def make_jobs(ctx, only=None):
     if tier == 'quick':
         uw, kw = [6, 8, 17, 33, 65, 128, 130], [8, 33, 64, 130]
     else:
-        uw = kw = big + [5 + i * 7 for i in range(1, 17)]
+        uw = big + [5 + i * 7 for i in range(1, 17)]
+        kw = [6, 7, 8, 16, 17, 31, 32, 33, 64, 65, 127, 130]
     for wa in sorted(set(uw + kw)):
         r = ctx.sub_rng('bigun', wa)
         pts = [(v, None) for v in boundary(r, wa, nun)]
